@@ -99,6 +99,13 @@ CLAIMED = {
             '(each key recognised again under an operator-word-free table) is decided by the oracle on results of parse, '
             'simplify, dedup and combine_expressions.',
             'Partial proof, see Props/C05.v header.', 'DESIGN.md section 4 C05'),
+    'C19': ('Coq proof (invariant over operation sequences: answers of any history equal those of the system that never caches a '
+            'tokenizer; the store of expression objects is append-only; parse of an expression returns the same object) + random '
+            'histories on real shared objects against the model and against fresh instances',
+            'Theorems for every sequence of the modelled calls on a world of instances with lazily cached tokenizers and shared '
+            'expression objects; tied to the code by running the same histories on real shared objects (observations and final '
+            'expression store compared) and re-checking every live expression after every call.',
+            'boolean.py class attributes rewritten by each Licensing() are not modelled (never read by the modelled functions).', 'DESIGN.md section 4 C19'),
 }
 
 NOT_YET = 'check under construction in this session; see DESIGN.md section 4 for the planned theorem'
